@@ -211,12 +211,230 @@ Definition diff_changes (cfg_changed : bool) (before after : graph) (files : lis
   : option (list label) :=
   changed_targets after files (diff_graphs cfg_changed before after) level incsub.
 
+(* ---- `plz query changes --since REV` in exact mode: src/please.go "query.changes", src/scm/git.go ---- *)
+(* What a revision is to the query: the hash of its .plzconfig (Configuration.Hash -> state.Hashes.Config)
+   and the build graph its BUILD files parse to. *)
+Record snapshot := mkSnap { sn_cfg : N; sn_graph : graph }.
+
+(* A git repository with a linear history (commit i+1 is the child of commit i) and a clean work tree that is
+   checked out at the HEAD commit.  HEAD is symbolic (on a branch) or detached (at a commit). *)
+Inductive head := OnBranch (b : str) | Detached (c : nat).
+Record repo := mkRepo { commits : list snapshot; branches : list (str * nat); hd : head }.
+
+(* what a revision argument - or the trimmed output of a git plumbing command, used as one - denotes *)
+Inductive gitref := RHead | RHeadMinus (k : nat) | RBranch (b : str) | RCommit (c : nat).
+
+Fixpoint lookup_branch (b : str) (bs : list (str * nat)) : option nat :=
+  match bs with
+  | [] => None
+  | (b', c) :: r => if str_eqb b b' then Some c else lookup_branch b r
+  end.
+Fixpoint set_branch (b : str) (c : nat) (bs : list (str * nat)) : list (str * nat) :=
+  match bs with
+  | [] => [(b, c)]
+  | (b', c') :: r => if str_eqb b b' then (b', c) :: r else (b', c') :: set_branch b c r
+  end.
+
+Definition head_commit (r : repo) : option nat :=
+  match hd r with OnBranch b => lookup_branch b (branches r) | Detached c => Some c end.
+Definition valid_commit (r : repo) (c : nat) : option nat :=
+  if Nat.ltb c (length (commits r)) then Some c else None.
+Definition resolve (r : repo) (x : gitref) : option nat :=
+  match match x with
+        | RHead => head_commit r
+        | RHeadMinus k => match head_commit r with
+                          | Some c => if Nat.leb k c then Some (c - k)%nat else None
+                          | None => None
+                          end
+        | RBranch b => lookup_branch b (branches r)
+        | RCommit c => Some c
+        end with
+  | Some c => valid_commit r c
+  | None => None
+  end.
+
+(* `git checkout <x>`: a branch name makes HEAD symbolic, the literal HEAD changes nothing, anything else detaches;
+   None = git fails (scm.Checkout returns an error, query.changes dies in log.Fatalf) *)
+Definition checkout (r : repo) (x : gitref) : option repo :=
+  match resolve r x with
+  | None => None
+  | Some c => Some (mkRepo (commits r) (branches r)
+                           (match x with RBranch b => OnBranch b | RHead => hd r | _ => Detached c end))
+  end.
+
+(* the work tree: what .plzconfig hashes to and what the BUILD files parse to right now *)
+Definition work_tree (r : repo) : option snapshot :=
+  match head_commit r with Some c => nth_error (commits r) c | None => None end.
+
+(* the git commands CurrentRevIdentifier may run; None = non-zero exit status *)
+Inductive gitcmd :=
+| GSymbolicRefShort      (* git symbolic-ref -q --short HEAD : the branch, fails on a detached HEAD *)
+| GRevParseHead          (* git rev-parse HEAD               : the commit *)
+| GRevParseAbbrevRef.    (* git rev-parse --abbrev-ref HEAD  : the branch, the literal "HEAD" when detached *)
+Definition git_out (c : gitcmd) (r : repo) : option gitref :=
+  match c, hd r with
+  | GSymbolicRefShort, OnBranch b => Some (RBranch b)
+  | GSymbolicRefShort, Detached _ => None
+  | GRevParseHead, _ => match resolve r RHead with Some c => Some (RCommit c) | None => None end
+  | GRevParseAbbrevRef, OnBranch b => Some (RBranch b)
+  | GRevParseAbbrevRef, Detached _ => Some RHead
+  end.
+
+(* git.CurrentRevIdentifier(permanent): the first command unless permanent, else / on failure the second *)
+Definition cur_rev_identifier (first fallback : gitcmd) (permanent : bool) (r : repo) : option gitref :=
+  match (if permanent then None else git_out first r) with
+  | Some x => Some x
+  | None => git_out fallback r
+  end.
+
+(* the statements of the exact-mode tail of "query.changes", in a closed step language *)
+Inductive step :=
+| SOriginal (permanent : bool)   (* original := scm.CurrentRevIdentifier(permanent) *)
+| SChangedFiles                  (* files := scm.ChangedFiles(since, true, "") *)
+| SCheckoutSince                 (* scm.Checkout(opts.Query.Changes.Since), Fatalf on error *)
+| SCheckoutOriginal              (* scm.Checkout(original), Fatalf on error *)
+| SReadConfig                    (* readConfig(): config = the work tree's .plzconfig *)
+| SParseBefore                   (* _, before := runBuild(WholeGraph, ...): a BuildState from `config` and the work tree *)
+| SParseAfter                    (* success, after := runBuild(WholeGraph, ...) *)
+| SDiff.                         (* print query.DiffGraphs(before, after, files, level, includeSubrepos) *)
+
+Record fstate := mkF {
+  f_repo : repo;
+  f_cfg : N;                         (* the hash of the package-level `config` *)
+  f_original : option gitref;
+  f_files : option (list str);
+  f_before : option snapshot;        (* before.Hashes.Config, before.Graph *)
+  f_after : option snapshot;
+  f_out : option (list label)
+}.
+
+(* changed: what git reports for since...HEAD (given, scm.ChangedFiles is not modelled) *)
+Definition exec_step (first fallback : gitcmd) (since : gitref) (changed : list str) (level : Z) (incsub : bool)
+           (st : fstate) (x : step) : option fstate :=
+  let '(mkF r cfg orig files before after out) := st in
+  match x with
+  | SOriginal p => match cur_rev_identifier first fallback p r with
+                   | Some o => Some (mkF r cfg (Some o) files before after out)
+                   | None => None
+                   end
+  | SChangedFiles => Some (mkF r cfg orig (Some changed) before after out)
+  | SCheckoutSince => match checkout r since with
+                      | Some r' => Some (mkF r' cfg orig files before after out)
+                      | None => None
+                      end
+  | SCheckoutOriginal => match orig with
+                         | Some o => match checkout r o with
+                                     | Some r' => Some (mkF r' cfg orig files before after out)
+                                     | None => None
+                                     end
+                         | None => None
+                         end
+  | SReadConfig => match work_tree r with
+                   | Some w => Some (mkF r (sn_cfg w) orig files before after out)
+                   | None => None
+                   end
+  | SParseBefore => match work_tree r with
+                    | Some w => Some (mkF r cfg orig files (Some (mkSnap cfg (sn_graph w))) after out)
+                    | None => None
+                    end
+  | SParseAfter => match work_tree r with
+                   | Some w => Some (mkF r cfg orig files before (Some (mkSnap cfg (sn_graph w))) out)
+                   | None => None
+                   end
+  | SDiff => match before, after, files with
+             | Some b, Some a, Some fs =>
+                 match diff_changes (negb (N.eqb (sn_cfg b) (sn_cfg a))) (sn_graph b) (sn_graph a) fs level incsub with
+                 | Some rep => Some (mkF r cfg orig files before after (Some rep))
+                 | None => None
+                 end
+             | _, _, _ => None
+             end
+  end.
+
+Fixpoint run_steps (first fallback : gitcmd) (since : gitref) (changed : list str) (level : Z) (incsub : bool)
+         (prog : list step) (st : fstate) : option fstate :=
+  match prog with
+  | [] => Some st
+  | x :: rest => match exec_step first fallback since changed level incsub st x with
+                 | Some st' => run_steps first fallback since changed level incsub rest st'
+                 | None => None
+                 end
+  end.
+
+(* one invocation: the configuration is read at start-up from the work tree; the answer is what was printed and
+   the repository the process leaves behind *)
+Definition since_query (first fallback : gitcmd) (prog : list step) (r : repo) (since : gitref) (changed : list str)
+           (level : Z) (incsub : bool) : option (list label * repo) :=
+  match work_tree r with
+  | None => None
+  | Some w =>
+      match run_steps first fallback since changed level incsub prog (mkF r (sn_cfg w) None None None None None) with
+      | Some st => match f_out st with Some rep => Some (rep, f_repo st) | None => None end
+      | None => None
+      end
+  end.
+
+(* the program and the commands the model was written for (tied to the source by Proof/C24_Gen.v) *)
+Definition since_flow : list step :=
+  [SOriginal false; SChangedFiles; SCheckoutSince; SReadConfig; SParseBefore;
+   SCheckoutOriginal; SReadConfig; SParseAfter; SDiff].
+Definition cri_first : gitcmd := GSymbolicRefShort.
+Definition cri_fallback : gitcmd := GRevParseHead.
+
+(* how a repository comes about: histories of git operations *)
+Inductive gitop :=
+| OpCommit (sn : snapshot)     (* git commit on top of HEAD (HEAD at the newest commit: the history stays linear) *)
+| OpNewBranch (b : str)        (* git checkout -b b *)
+| OpBranchAt (b : str) (x : gitref)   (* git branch b x *)
+| OpCheckout (x : gitref).     (* git checkout x / git checkout --detach x for a commit *)
+
+Definition apply_op (r : repo) (o : gitop) : repo :=
+  match o with
+  | OpCommit sn =>
+      match head_commit r with
+      | Some c => if Nat.eqb (S c) (length (commits r))
+                  then let n := length (commits r) in
+                       match hd r with
+                       | OnBranch b => mkRepo (commits r ++ [sn]) (set_branch b n (branches r)) (hd r)
+                       | Detached _ => mkRepo (commits r ++ [sn]) (branches r) (Detached n)
+                       end
+                  else r
+      | None => r
+      end
+  | OpNewBranch b =>
+      match lookup_branch b (branches r), resolve r RHead with
+      | None, Some c => mkRepo (commits r) (set_branch b c (branches r)) (OnBranch b)
+      | _, _ => r
+      end
+  | OpBranchAt b x =>
+      match lookup_branch b (branches r), resolve r x with
+      | None, Some c => mkRepo (commits r) (set_branch b c (branches r)) (hd r)
+      | _, _ => r
+      end
+  | OpCheckout x => match checkout r x with Some r' => r' | None => r end
+  end.
+
+(* git init + first commit on branch b0, then the operations *)
+Definition repo_of (b0 : str) (s0 : snapshot) (ops : list gitop) : repo :=
+  fold_left apply_op ops (mkRepo [s0] [(b0, 0%nat)] (OnBranch b0)).
+
+Definition head_eqb (a b : head) : bool :=
+  match a, b with
+  | OnBranch x, OnBranch y => str_eqb x y
+  | Detached x, Detached y => Nat.eqb x y
+  | _, _ => false
+  end.
+
 (* ---- correspondence cases ---- *)
 Inductive case :=
 | CChanges (g : graph) (files : list str) (level : Z) (incsub : bool) (observed : list label)
 | CDiff (cfg_changed : bool) (before after : graph) (files : list str) (level : Z) (incsub : bool)
         (observed : list label)
-| CDir (path : str) (observed : str).     (* filepath.Dir on the class of paths the model covers *)
+| CDir (path : str) (observed : str)      (* filepath.Dir on the class of paths the model covers *)
+(* the real binary on a real git repository built by [ops]: `plz query changes --since <since> --level N`;
+   observed: what was printed, where HEAD was before the run and where the run left it *)
+| CSince (b0 : str) (s0 : snapshot) (ops : list gitop) (since : gitref) (changed : list str) (level : Z)
+         (incsub : bool) (head_before : head) (observed : list label) (head_after : head).
 
 Definition same_set (a b : list label) : bool :=
   Nat.eqb (length a) (length b) && forallb (fun x => mem x b) a && forallb (fun x => mem x a) b.
@@ -228,4 +446,11 @@ Definition check (c : case) : bool :=
   | CDiff cfg before after files level incsub obs =>
       match diff_changes cfg before after files level incsub with Some r => same_set r obs | None => false end
   | CDir p obs => str_eqb (path_dir p) obs
+  | CSince b0 s0 ops since changed level incsub hb obs ha =>
+      let r := repo_of b0 s0 ops in
+      head_eqb (hd r) hb &&
+      match since_query cri_first cri_fallback since_flow r since changed level incsub with
+      | Some (rep, r') => same_set rep obs && head_eqb (hd r') ha
+      | None => false
+      end
   end.
